@@ -12,6 +12,10 @@
                               well-formed shapes is C06_ops_total_partial / C06_json_total_partial /
                               C06_handlers_total_partial, and the coverage list OpsCovered.ops_cover is checked against
                               Gen/OpSites.v (C06OpsObl.ops_sites_covered, ops_cover_exact)
+         "reader-model: <k>"  the shape model of ach.Reader (ReaderShape.v) performs this dereference / index as site kind <k>;
+                              safe in every reachable state of the reader (C06_reader_site_safe from the named invariant
+                              clauses, C06_reader_inv); the coverage list ReaderSiteTable.reader_cover is checked against
+                              Gen/OpSites.v (C06ReaderObl.reader_sites_covered, reader_cover_exact, reader_accounted)
          "search-only: …"     NOT proved: change detector only (a new site of this kind in the source makes
                               the obligation false); absence of panics there rests on the oracle.
    A slice, index or optional dereference that appears in the source and is neither discharged by its
@@ -223,31 +227,31 @@ Definition accounted : list acct := [
   mkacct "ach.trimSpacesFromLongLine" "s[:lineLength]" "model:trim_long_ok - called only when the rune count exceeds 94";
   mkacct "ach.Reader.parseLine" "r.line[:1]" "model:parse_line_total - every line given to parseLine has at least 53 bytes (read_line_other_total, read_line_first_total)";
   mkacct "ach.Reader.parseLine" "r.line[:2]" "model:parse_line_total - every line given to parseLine has at least 53 bytes (read_line_other_total, read_line_first_total)";
-  mkacct "ach.Reader.parseEDAddenda" "r.currentBatch.GetHeader().CompanyName" "search-only: optional sub-record dereferenced without a syntactically dominating nil test (constructor / reader invariants are not modelled)";
-  mkacct "ach.Reader.parseEntryDetail" "r.currentBatch.GetHeader().StandardEntryClassCode" "search-only: optional sub-record dereferenced without a syntactically dominating nil test (constructor / reader invariants are not modelled)";
-  mkacct "ach.Reader.parseAddenda" "r.currentBatch.GetHeader().StandardEntryClassCode" "search-only: optional sub-record dereferenced without a syntactically dominating nil test (constructor / reader invariants are not modelled)";
-  mkacct "ach.Reader.parseAddenda" "r.currentBatch.GetEntries()[entryIndex]" "search-only: reader: entryIndex = len(entries)-1 computed after the empty check";
+  mkacct "ach.Reader.parseEDAddenda" "r.currentBatch.GetHeader().CompanyName" "reader-model: SCurHeader of the reader shape model (ReaderShape.v) performs this dereference; safe in every reachable state by the invariant clauses ClCurHeader (C06_reader_site_safe, C06_reader_inv)";
+  mkacct "ach.Reader.parseEntryDetail" "r.currentBatch.GetHeader().StandardEntryClassCode" "reader-model: SCurHeader of the reader shape model (ReaderShape.v) performs this dereference; safe in every reachable state by the invariant clauses ClCurHeader (C06_reader_site_safe, C06_reader_inv)";
+  mkacct "ach.Reader.parseAddenda" "r.currentBatch.GetHeader().StandardEntryClassCode" "reader-model: SCurHeader of the reader shape model (ReaderShape.v) performs this dereference; safe in every reachable state by the invariant clauses ClCurHeader (C06_reader_site_safe, C06_reader_inv)";
+  mkacct "ach.Reader.parseAddenda" "r.currentBatch.GetEntries()[entryIndex]" "reader-model: SCurLastEntry of the reader shape model (ReaderShape.v) performs this dereference; safe in every reachable state by the invariant clauses ClCurEntries (C06_reader_site_safe, C06_reader_inv)";
   mkacct "ach.Reader.parseAddenda" "r.line[1:3]" "model:parse_line_total";
   mkacct "ach.Reader.parseAddenda" "r.line[3:6]" "model:parse_line_total";
-  mkacct "ach.Reader.parseADVAddenda" "r.currentBatch.GetADVEntries()[entryIndex]" "search-only: reader: entryIndex = len(entries)-1 computed after the empty check";
-  mkacct "ach.Reader.parseBatchControl" "r.currentBatch.GetHeader().StandardEntryClassCode" "search-only: optional sub-record dereferenced without a syntactically dominating nil test (constructor / reader invariants are not modelled)";
-  mkacct "ach.Reader.parseBatchControl" "r.currentBatch.GetADVControl().Parse" "search-only: optional sub-record dereferenced without a syntactically dominating nil test (constructor / reader invariants are not modelled)";
-  mkacct "ach.Reader.parseBatchControl" "r.currentBatch.GetADVControl().LineNumber" "search-only: optional sub-record dereferenced without a syntactically dominating nil test (constructor / reader invariants are not modelled)";
+  mkacct "ach.Reader.parseADVAddenda" "r.currentBatch.GetADVEntries()[entryIndex]" "reader-model: SCurLastAdvEntry of the reader shape model (ReaderShape.v) performs this dereference; safe in every reachable state by the invariant clauses ClCurEntries (C06_reader_site_safe, C06_reader_inv)";
+  mkacct "ach.Reader.parseBatchControl" "r.currentBatch.GetHeader().StandardEntryClassCode" "reader-model: SCurHeader of the reader shape model (ReaderShape.v) performs this dereference; safe in every reachable state by the invariant clauses ClCurHeader (C06_reader_site_safe, C06_reader_inv)";
+  mkacct "ach.Reader.parseBatchControl" "r.currentBatch.GetADVControl().Parse" "reader-model: SCurAdvControl of the reader shape model (ReaderShape.v) performs this dereference; safe in every reachable state by the invariant clauses ClCurHeader, ClCurControl (C06_reader_site_safe, C06_reader_inv)";
+  mkacct "ach.Reader.parseBatchControl" "r.currentBatch.GetADVControl().LineNumber" "reader-model: SCurAdvControl of the reader shape model (ReaderShape.v) performs this dereference; safe in every reachable state by the invariant clauses ClCurHeader, ClCurControl (C06_reader_site_safe, C06_reader_inv)";
   mkacct "ach.Reader.parseBatchControl" "r.currentBatch.GetControl().SetValidation" "nil-safe: method call on a possibly nil pointer whose method starts with `if recv == nil { return }` (Gen/OpSites.nil_safe_methods)";
-  mkacct "ach.Reader.parseBatchControl" "r.currentBatch.GetControl().Parse" "search-only: optional sub-record dereferenced without a syntactically dominating nil test (constructor / reader invariants are not modelled)";
-  mkacct "ach.Reader.parseBatchControl" "r.currentBatch.GetControl().LineNumber" "search-only: optional sub-record dereferenced without a syntactically dominating nil test (constructor / reader invariants are not modelled)";
-  mkacct "ach.Reader.parseBatchControl" "r.IATCurrentBatch.GetControl().Parse" "search-only: optional sub-record dereferenced without a syntactically dominating nil test (constructor / reader invariants are not modelled)";
-  mkacct "ach.Reader.parseBatchControl" "r.IATCurrentBatch.GetControl().LineNumber" "search-only: optional sub-record dereferenced without a syntactically dominating nil test (constructor / reader invariants are not modelled)";
+  mkacct "ach.Reader.parseBatchControl" "r.currentBatch.GetControl().Parse" "reader-model: SCurControl of the reader shape model (ReaderShape.v) performs this dereference; safe in every reachable state by the invariant clauses ClCurHeader, ClCurControl (C06_reader_site_safe, C06_reader_inv)";
+  mkacct "ach.Reader.parseBatchControl" "r.currentBatch.GetControl().LineNumber" "reader-model: SCurControl of the reader shape model (ReaderShape.v) performs this dereference; safe in every reachable state by the invariant clauses ClCurHeader, ClCurControl (C06_reader_site_safe, C06_reader_inv)";
+  mkacct "ach.Reader.parseBatchControl" "r.IATCurrentBatch.GetControl().Parse" "reader-model: SIatControl of the reader shape model (ReaderShape.v) performs this dereference; safe in every reachable state by the invariant clauses ClIatBuilt (C06_reader_site_safe, C06_reader_inv)";
+  mkacct "ach.Reader.parseBatchControl" "r.IATCurrentBatch.GetControl().LineNumber" "reader-model: SIatControl of the reader shape model (ReaderShape.v) performs this dereference; safe in every reachable state by the invariant clauses ClIatBuilt (C06_reader_site_safe, C06_reader_inv)";
   mkacct "ach.Reader.parseFileControl" "r.File.Control.Parse" "value: the operand is a struct value (FileControl), selecting a field of it dereferences nothing (Gen/OpSites)";
   mkacct "ach.Reader.parseFileControl" "r.File.Control.LineNumber" "value: the operand is a struct value (FileControl), selecting a field of it dereferences nothing (Gen/OpSites)";
   mkacct "ach.Reader.parseFileControl" "r.File.ADVControl.Parse" "value: the operand is a struct value (ADVFileControl), selecting a field of it dereferences nothing (Gen/OpSites)";
   mkacct "ach.Reader.parseFileControl" "r.File.ADVControl.LineNumber" "value: the operand is a struct value (ADVFileControl), selecting a field of it dereferences nothing (Gen/OpSites)";
-  mkacct "ach.Reader.parseIATAddenda" "r.IATCurrentBatch.GetEntries()[entryIndex]" "search-only: reader: entryIndex = len(entries)-1 computed after the empty check";
+  mkacct "ach.Reader.parseIATAddenda" "r.IATCurrentBatch.GetEntries()[entryIndex]" "reader-model: SIatLastEntry of the reader shape model (ReaderShape.v) performs this dereference; safe in every reachable state by the invariant clauses ClIatNonempty, ClIatEntries (C06_reader_site_safe, C06_reader_inv)";
   mkacct "ach.Reader.switchIATAddenda" "r.line[1:3]" "model:parse_line_total";
   mkacct "ach.Reader.mandatoryOptionalIATAddenda" "r.line[1:3]" "model:parse_line_total";
-  mkacct "ach.Reader.mandatoryOptionalIATAddenda" "r.IATCurrentBatch.Entries[entryIndex]" "search-only: reader: entryIndex = len(entries)-1 computed after the empty check";
-  mkacct "ach.Reader.nocIATAddenda" "r.IATCurrentBatch.Entries[entryIndex]" "search-only: reader: entryIndex = len(entries)-1 computed after the empty check";
-  mkacct "ach.Reader.returnIATAddenda" "r.IATCurrentBatch.Entries[entryIndex]" "search-only: reader: entryIndex = len(entries)-1 computed after the empty check";
+  mkacct "ach.Reader.mandatoryOptionalIATAddenda" "r.IATCurrentBatch.Entries[entryIndex]" "reader-model: SIatLastEntry of the reader shape model (ReaderShape.v) performs this dereference; safe in every reachable state by the invariant clauses ClIatNonempty, ClIatEntries (C06_reader_site_safe, C06_reader_inv)";
+  mkacct "ach.Reader.nocIATAddenda" "r.IATCurrentBatch.Entries[entryIndex]" "reader-model: SIatLastEntry of the reader shape model (ReaderShape.v) performs this dereference; safe in every reachable state by the invariant clauses ClIatNonempty, ClIatEntries (C06_reader_site_safe, C06_reader_inv)";
+  mkacct "ach.Reader.returnIATAddenda" "r.IATCurrentBatch.Entries[entryIndex]" "reader-model: SIatLastEntry of the reader shape model (ReaderShape.v) performs this dereference; safe in every reachable state by the invariant clauses ClIatNonempty, ClIatEntries (C06_reader_site_safe, C06_reader_inv)";
   mkacct "ach.CheckRoutingNumber" "routingNumber[len(routingNumber)-1]" "search-only: last element after an emptiness check";
   mkacct "ach.Writer.writeBatch" "batch.GetHeader().StandardEntryClassCode" "ops-model: write_batch (TotalOps/TotalJson) dereferences this pointer; no panic on well-formed shapes (C06_ops_total_partial / C06_json_total_partial / C06_handlers_total_partial), panic reproduced on the others (correspondence c06ops)";
   mkacct "server.createFileEndpoint" "req.File.ID" "ops-model: handle (RCreateFile) (TotalOps/TotalJson) dereferences this pointer; no panic on well-formed shapes (C06_ops_total_partial / C06_json_total_partial / C06_handlers_total_partial), panic reproduced on the others (correspondence c06ops)";
